@@ -105,6 +105,41 @@ def check_generated_holograms(ctx):
             tol = 1e-6 * scale * n_it
             if W.maxdiff(hn, mh) > tol or W.maxdiff(rn, mr) > tol:
                 alarm('numpy gerchberg_saxton', 'hologram differs by %.3g, reconstruction by %.3g' % (W.maxdiff(hn, mh), W.maxdiff(rn, mr)), rec)
+    # ---------------------------------------------------------------- NumPy gerchberg_saxton_3d (even sides, 'no constraint')
+    for (h, w, planes) in ([(4, 4, 2), (4, 6, 3)] if ctx.quick else [(4, 4, 2), (4, 6, 3), (6, 4, 1), (6, 6, 2)]):
+        for n_it in (1, 2):
+            name, mi = rng.choice([('Transfer Function Fresnel', 1), ('Angular Spectrum', 0), ('IR Fresnel', 2)])
+            dists = [rng.choice([1, -1]) * rng.uniform(0.5, 4) for _ in range(planes)]
+            fields = [np.array([[rng.uniform(0.4, 1.0) for _ in range(w)] for _ in range(h)]) *
+                      np.exp(1j * np.array([[rng.uniform(-3, 3) for _ in range(w)] for _ in range(h)])) for _ in range(planes)]
+            seed = rng.randrange(10 ** 6)
+            np.random.seed(seed)
+            rp = np.pi * np.random.random((2 * h, 2 * w))
+            rec = {'routine': 'numpy gerchberg_saxton_3d', 'h': h, 'w': w, 'planes': planes, 'iterations': n_it, 'distances': dists, 'method': name,
+                   'np_seed': seed}
+            ctx.case(('gen', 'gs3d', h, w, planes, n_it, name), True)
+            ctx.count('generated/gerchberg_saxton_3d numpy')
+            checked.add('gerchberg_saxton_3d numpy')
+            np.random.seed(seed)
+            try:
+                holo = NW.gerchberg_saxton_3d([f.copy() for f in fields], n_it, list(dists), dx, lam, propagation_type=name)
+            except Exception as e:
+                alarm('numpy gerchberg_saxton_3d', 'the routine raised %r' % e, rec)
+                continue
+            hn = np.asarray(holo, dtype=np.complex128)
+            if not ctx.drv_ok:
+                continue
+            out = ctx.model.ask(['gh_gs3d %d %d %d %d %d %d %d %s %s %s' % (mi, planes, h, w, f2b(dx), f2b(lam), n_it, fl(dists),
+                                 ' '.join(W.enc_field(f) for f in fields), fl(rp))])[0].split()
+            try:
+                R, C = int(out[0]), int(out[1])
+                mh = field_of(out[2:], R, C)
+            except (ValueError, IndexError):
+                alarm('numpy gerchberg_saxton_3d', 'driver answered %r' % ' '.join(out)[:80], rec)
+                continue
+            # the plane holograms are accumulated in a complex64 array by the source: single-precision tolerance
+            if hn.shape != (R, C) or W.maxdiff(hn, mh) > 5e-6 * planes * n_it:
+                alarm('numpy gerchberg_saxton_3d', 'shape %s vs %d x %d, hologram differs by %.3g' % (hn.shape, R, C, W.maxdiff(hn, mh) if hn.shape == (R, C) else -1), rec)
     # ---------------------------------------------------------------- shift_w_double_phase
     for (h, w) in ([(6, 6), (5, 6), (7, 8)] if ctx.quick else [(6, 6), (5, 6), (7, 8), (7, 5), (8, 8), (9, 6)]):      # sides >= 5: a last axis < 5 is read as channels
         for blur in (1, 0):
